@@ -67,7 +67,8 @@ theorem addNewTasks_desc (nts : List NewTask) (s s' : State) (r r' : List TaskId
 theorem newTasks_views {c c' : State} {nts : List NewTask} {o : Out} (hn : (taskIds c.tasks).Nodup) (hm' : MnOk c')
     (h : c.newTasks nts = .ok (c', o)) :
     (∀ w t, t ∉ nts.map (·.id) → Foreign (view c w t) [] (view c' w t)) ∧
-    (∀ w t, stOf c.tasks t = none → view c' w t = .quiet ∨ view c' w t = .hot) ∧ NoCompute o.msgs := by
+    (∀ w t, stOf c.tasks t = none → view c' w t = .quiet ∨ view c' w t = .hot) ∧ NoCompute o.msgs ∧
+    (∀ t st', stOf c'.tasks t = some st' → stOf c.tasks t ≠ none ∨ t ∈ nts.map (·.id)) := by
   have nc := newTasks_noCompute h
   simp only [State.newTasks] at h
   split at h
@@ -106,7 +107,11 @@ theorem newTasks_views {c c' : State} {nts : List NewTask} {o : Out} (hn : (task
           intro x wk wk' hw hw'
           have : s1.worker? x = some wk := by unfold State.worker? at hw ⊢; rw [ew]; exact hw
           exact WKeep.of_frw f x wk wk' this hw'
-        refine ⟨fun w t hnot => ?_, fun w t hnone => ?_, nc⟩
+        refine ⟨fun w t hnot => ?_, fun w t hnone => ?_, nc, fun t st' hs' => ?_⟩
+        rotate_right
+        · rcases back t st' hs' with ⟨st, a, _⟩ | ⟨a, _⟩
+          · exact .inl (by rw [a]; intro e; cases e)
+          · exact .inr a
         · refine foreign_of (m := calm) ⟨fun st' hs' => ?_, fun hnone => ?_⟩ wk hm' w (fun e => e) (fun e => e)
           · rcases back t st' hs' with a | ⟨a, _⟩
             · exact a
